@@ -50,6 +50,19 @@ CHECKS = {
    technique="TLA+ Rpc spec (stats event sequence in Apply); the same RPC executed under every subset of {unary interceptor, stream interceptor, stats handler} on the real Mux; recording interceptors / stats.Handler are the trace source; validated by TLC against RpcTrace.tla (InterceptOnce, StatsWellFormed) plus 2-safety comparison OptionsTransparent",
    text="Each RPC (every shape, HTTP/gRPC/gRPC-web, message sizes from zero bytes up, ok / error before / error after replies) is run under all 8 option subsets: the matching interceptor must be called exactly once with the full method name, streaming flags and the handler's error; stats events must match tag,in-header,begin,(payloads|out-header)*,out-trailer,end with one payload event per message and End carrying the handler's status; and the client-visible outcome must be identical across the subsets.",
    note="InPayload for a message without wire payload on HTTP is unspecified. " + RPCNOTE),
+
+ "C03": dict(engine="Transcode", level="model_checking", design="3.4, 6/C03",
+   technique="TLA+ Transcode spec (client split over path/query/body, server body-then-parameters application) model-checked by TLC; all 1,024 request shapes TLC enumerates are concretised with seeded fields/values of every kind and executed through the real Mux; validated by TLC against TranscodeTrace.tla (Reassembly, OthersIntact, RejectInvalid)",
+   text="TLC checks for every admissible (rule body selector, path variables, presence pattern) that decoding the body and applying the parameters reproduces the message the client means; each shape is then sent for real with fields of every scalar kind, enum, bytes in all base64 alphabets/paddings, repeated, nested, oneof, wrappers, Timestamp/Duration/FieldMask, boundary and random values, JSON and protobuf bodies, gzip, both query-key spellings, unary and first-stream-message, and the handler-received message must equal the generated one; one invalid text per shape must be rejected.",
+   note="Structure is decided by the spec; value-level text conversion is judged by identity on the driver's generated message (DESIGN 8). Non-canonical texts are unspecified. " + TB),
+ "C04": dict(engine="Transcode", level="model_checking", design="3.4, 6/C04",
+   technique="TLA+ negotiation operators (Admitted, AllowedResponseTypes in Transcode.tla); Accept / Accept-Encoding / content-type / reply-kind / response_body cases executed through the real Mux with an independent decode by the response headers; validated by TLC against TranscodeTrace.tla (AcceptAdmits, ResponseDecodable, HttpBodyRaw, ResponseBodySelects, EncodingTruthful)",
+   text="For Accept headers of up to three ranges over registered, wildcard and unregistered types with q in {1,0.5,0}, split over one or two header lines with junk, each request content type, message / empty / 100 kB / HttpBody replies and response_body selectors: the response Content-Type must be admitted by the Accept header when some registered type is (else the request's own), the body decoded with the codec named by that Content-Type must equal the (selected part of the) reply, HttpBody data must arrive raw under its own type, and Content-Encoding must describe the bytes.",
+   note="Permissive Accept reading; response compression is never negotiated by this tree, so EncodingTruthful holds with identity only. " + TB),
+ "C07": dict(engine="Transcode", level="model_checking", design="3.4, 6/C07",
+   technique="same TLA+ Transcode spec; every shape with a competing value for a path-bound field in the query and/or the body (negative config ParamOrder=query-last must fail); validated by TLC against TranscodeTrace.tla (PathAuthoritative)",
+   text="TLC proves on the model that path captures applied last make path-bound fields authoritative (the query-last variant violates it) and every competing shape is executed for real with fields of every kind, in every query order: the handler must see the path value.",
+   note=TB),
 }
 
 NOT_YET = {}
